@@ -23,6 +23,8 @@ from lib import gen
 from lib import straxlib as sl
 from lib.straxlib import strax
 
+np = sl.np
+
 ID = "C09"
 LEAN_MODULES = ["StraxModel.Props.C09"]
 TRUSTED = [
@@ -116,11 +118,11 @@ def comp_fn(name):
 def local_within(name, wl, wr):
     """is the named computation local within the declared window (the property's premise)?"""
     parts = name.split(":")
-    if parts[0] == "gap":
-        # Lean `overlap_whole_gap`: gap grouping is chunking independent for every gap <= 2 * look-ahead,
-        # whatever the look-back (sent_until is always a group cut)
-        return int(parts[1]) <= 2 * wr
-    if parts[0] in ("pair0", "pair1"):
+    if parts[0] in ("gap", "pair0", "pair1"):
+        # "local within that window": whether a row belongs to a group is decided by the rows up to g before it and
+        # up to g after it, so g must fit into the look-back AND the look-ahead. (Lean `overlap_whole_gap` proves more -
+        # every g <= 2 * look-ahead works with today's safety margin - but that is the implementation's slack, not the
+        # property; gaps beyond min(wl, wr) are compared with the model only.)
         return int(parts[1]) <= min(wl, wr)
     return parts[0] != "batch"
 
@@ -134,7 +136,36 @@ class FakeDep:
         return self.kind
 
 
-def plugin_class(comps, wl, wr, kinds=("k0",), deps=None):
+def declared_window(decl, wl, wr):
+    """what get_window_size() returns for a declaration form; default: the tuple (wl, wr)"""
+    if decl is None:
+        return (wl, wr)
+    form = decl[0]
+    if form == "s":
+        return int(decl[1])
+    if form == "f":
+        return float(decl[1])
+    if form == "p":
+        return (int(decl[1]), int(decl[2]))
+    if form == "l":
+        return [int(decl[1]), int(decl[2])]
+    if form == "np":
+        return np.int64(decl[1])
+    if form == "t3":
+        return (1, 2, 3)
+    raise ValueError(form)
+
+
+def decl_token(decl):
+    form = decl[0]
+    if form in ("s", "f"):
+        return f"s:{int(decl[1])}"
+    if form in ("p", "l"):
+        return f"p:{int(decl[1])}:{int(decl[2])}"
+    return "x"
+
+
+def plugin_class(comps, wl, wr, kinds=("k0",), deps=None, decl=None):
     """a REAL OverlapWindowPlugin subclass computing `comps` (one output each) on its input kinds;
     strax: multi_output <=> more than one provided data type"""
     multi = len(comps) > 1
@@ -148,7 +179,7 @@ def plugin_class(comps, wl, wr, kinds=("k0",), deps=None):
            "    return {f'o{i}': r for i, r in enumerate(res)} if multi else res[0]\n")
     exec(src, ns)  # noqa: S102 - keyword names of compute must be the data kinds
     body = dict(depends_on=deps, save_when=strax.SaveWhen.ALWAYS, compute=ns["compute"],
-                get_window_size=lambda self: (wl, wr), __version__="0")
+                get_window_size=lambda self: declared_window(decl, wl, wr), __version__="0")
     if multi:
         body.update(provides=tuple(f"o{i}" for i in range(len(comps))),
                     data_kind={f"o{i}": f"ok{i}" for i in range(len(comps))},
@@ -203,7 +234,7 @@ def impl_iter(case):
 
     def f():
         chunks = [real_chunk(c) for c in case["chunks"]]
-        p = standalone(plugin_class(comps, wl, wr))
+        p = standalone(plugin_class(comps, wl, wr, decl=case.get("decl")))
         outs = [show_result(r) for r in p.iter({"d0": iter(chunks)})]
         return " ".join(outs) if outs else "-"
     return quiet(sl.guarded)(f)
@@ -212,6 +243,8 @@ def impl_iter(case):
 def op_iter(case):
     comps, wl, wr = case["comps"], case["wl"], case["wr"]
     cs = " ".join(show_raw(c) for c in case["chunks"])
+    if case.get("decl") is not None:
+        return f"c09.win {','.join(comps)} {decl_token(case['decl'])} {cs}".rstrip()
     if len(comps) == 1:
         return f"c09.run {comps[0]} {wl} {wr} {cs}".rstrip()
     return f"c09.multi {','.join(comps)} {wl} {wr} {cs}".rstrip()
@@ -243,7 +276,7 @@ def impl_ctx(case):
 
     def f():
         Source.CHUNKS = case["chunks"]
-        cls = plugin_class(comps, wl, wr)
+        cls = plugin_class(comps, wl, wr, decl=case.get("decl"))
         per_output = []
         for i in range(len(comps)):
             st = strax.Context(storage=[], register=[Source, cls], allow_lazy=bool(case.get("lazy", True)))
@@ -570,7 +603,7 @@ def run(ctx):
 
     # 2. random, directly through iter: single output
     cases = []
-    for _ in range(ctx.pick(7000, 60000)):
+    for _ in range(ctx.pick(6000, 60000)):
         rows, chunks = run_case(rng)
         wl, wr = rand_window(rng)
         cases.append(dict(comps=[pick_comp(rng, wl, wr)], wl=wl, wr=wr, chunks=chunks, valid=True))
@@ -594,7 +627,7 @@ def run(ctx):
 
     # 3. random, directly through iter: multi-output (2..3 outputs incl. interlocking group-forming ones)
     cases = []
-    for _ in range(ctx.pick(3500, 30000)):
+    for _ in range(ctx.pick(3000, 30000)):
         rows, chunks = run_case(rng)
         wl, wr = rand_window(rng)
         k = rng.choice([2, 2, 3])
@@ -692,6 +725,42 @@ def run(ctx):
     ctx.correspond("context/epoch", ccases, impl_ctx, op_iter, oracle_run, nontrivial=nontrivial,
                    rule="a sample of the `context` cases (both processors) shifted to epoch-scale times",
                    branch=lambda c, o: c["proc"] + ":" + ("err" if o.startswith("err") else "ok"))
+
+    # 7c. every form get_window_size() may return, through _get_window_size: a number (the documented primary form ->
+    #     (w, w), no sign check), float, tuple, list, and the illegal ones (np.int64, three elements -> ValueError)
+    wcases = []
+    for j in range(ctx.pick(1800, 12000)):
+        rows, chunks = run_case(rng, n=rng.randint(1, 12))
+        r = rng.random()
+        w = rng.choice(WINDOWS_SYM)
+        if r < 0.5:
+            decl, wl, wr, legal = ["s", w], w, w, True
+        elif r < 0.6:
+            decl, wl, wr, legal = ["f", w], w, w, True
+        elif r < 0.75:
+            a, b = rand_window(rng)
+            decl, wl, wr, legal = ["l", a, b], a, b, True
+        elif r < 0.85:
+            w = -rng.randint(1, 3)
+            decl, wl, wr, legal = ["s", w], w, w, False      # accepted by the code, outside the property
+        elif r < 0.93:
+            decl, wl, wr, legal = ["np", w], 0, 0, False
+        else:
+            decl, wl, wr, legal = ["t3"], 0, 0, False
+        multi = rng.random() < 0.3
+        comps = [pick_comp(rng, max(wl, 0), max(wr, 0)) for _ in range(2 if multi else 1)]
+        c = dict(comps=comps, wl=wl, wr=wr, decl=decl, chunks=chunks, valid=legal)
+        if legal and j % 9 == 0:
+            c["proc"] = procs[(j // 9) % 2]
+            c["lazy"] = True
+        wcases.append(c)
+    direct = [c for c in wcases if "proc" not in c]
+    ctx.correspond("iter/window-forms", direct, impl_iter, op_iter, oracle_run, nontrivial=nontrivial,
+                   rule="get_window_size() returning a number (50 %), a float, a list of two, a negative number, np.int64, a 3-tuple; the model normalises with `windowOf`; oracle on the legal non-negative forms",
+                   branch=lambda c, o: c["decl"][0] + ":" + ("err" if o.startswith("err") else "ok"))
+    ctx.correspond("context/window-forms", [c for c in wcases if "proc" in c], impl_ctx, op_iter, oracle_run, nontrivial=nontrivial,
+                   rule="the legal forms through Context.get_iter (both processors)",
+                   branch=lambda c, o: c["decl"][0] + ":" + c["proc"] + ":" + ("err" if o.startswith("err") else "ok"))
 
     # 8. corpus: hand-picked shapes that every run must see
     corpus = [
